@@ -79,7 +79,8 @@ def find_state_changes(
     equals: Callable,
     step=60,
 ) -> Generator:
-    state_change_intervals = find_state_change_intervals(head, last, get, equals, step)
+    # intervals are discovered from the head downwards; report changes in increasing level order
+    state_change_intervals = reversed(list(find_state_change_intervals(head, last, get, equals, step)))
     for int_head, int_head_value, int_tail, int_last_value in state_change_intervals:
         yield from walk_state_change_interval(
             int_head,
